@@ -10,6 +10,7 @@ decided on implementation traces by `ML.Mon` (both variants) and kept open as a 
 import SwimVerif.Model.MapLane
 import SwimVerif.Proofs.ValueLane
 import SwimVerif.Proofs.C03Lines
+import SwimVerif.Proofs.C03Indep
 
 set_option linter.unusedVariables false
 namespace SwimVerif.ML
@@ -187,6 +188,53 @@ def C03_snapshot_consistent_open : Prop :=
 example : syncIdsFresh [] [.update 1 5, .sync 7, .update 2 6, .remove 1, .write, .write, .write, .write, .write] = true ∧
     traceOkT {} {} [.update 1 5, .sync 7, .update 2 6, .remove 1, .write, .write, .write, .write, .write] = true := by
   decide
+
+/-! ### Concurrent syncs -/
+
+/-- The literal reading of "concurrent syncs do not disturb each other": the frames addressed to `r'` are the same
+with and without the request of another remote `r`. -/
+def C03_concurrent_syncs_independent : Prop :=
+  ∀ (ops : List Op) (r r' : Nat), r ≠ r' → syncIdsFresh [] ops = true →
+    (framesOf {} ops).filter (Frame.isTo r') =
+      (framesOf {} (ops.filter (fun o => !o.isSyncOf r))).filter (Frame.isTo r')
+
+/-- It is false, of the model and of the real `MapLane` alike (`corpus/C03/ml-indep-witness.ops`: the real lane
+answers `sync:7:1:9` with the request of remote 8 present and `sync:7:1:5` without): every write serves one queue and
+the value is read when the entry is written, so another remote's request delays `r'`'s entries past later updates.
+Both answers are consistent snapshots (`C03_snapshot_consistent_partial`). -/
+theorem C03_concurrent_syncs_independent_fails : ¬ C03_concurrent_syncs_independent := by
+  intro h
+  have := h [.update 1 5, .update 2 6, .write, .write, .sync 8, .sync 7, .write, .update 1 9, .write, .write, .write,
+    .write, .write, .write] 8 7 (by decide) (by decide)
+  revert this
+  decide
+
+/-- **Concurrent syncs are independent up to the schedule**: what `WriteQueues::pop` does either serves `r` and then
+changes nothing but `r`'s own queue (event queue and every other remote's queue untouched), or it is, entry for
+entry, a step (`NPop`: emit the head event / serve a snapshot key / finish a caught-up request, for some queue) of the
+write queues from which `r`'s request has been erased. So the request of `r` is visible to the others only through
+which write serves whom. -/
+theorem C03_concurrent_syncs_independent_partial (w : WQ) (hi : IdxOk w) (t : ToWrite) (ht : w.pop.1 = some t)
+    (r : Nat) :
+    (t.isFor r = true → w.pop.2.eq = w.eq ∧ eraseRemote r w.pop.2.syncs = eraseRemote r w.syncs) ∧
+    (t.isFor r = false → NPop w.eq (eraseRemote r w.syncs) t w.pop.2.eq (eraseRemote r w.pop.2.syncs)) := by
+  have hs := pop_spec w hi
+  rw [ht] at hs
+  exact nPop_erase (popR_nPop hs) r
+
+/-- …and a request itself only appends a queue: erased, the request of `r` is no step at all. -/
+theorem C03_sync_request_appends (s : St) (r r' : Nat) :
+    eraseRemote r (step s (.sync r')).1.wq.syncs =
+      (if r' = r then eraseRemote r s.wq.syncs
+       else eraseRemote r s.wq.syncs ++ [⟨r', s.content.map (·.1), s.wq.eq.events.length⟩]) ∧
+    (step s (.sync r')).1.wq.eq = s.wq.eq ∧ (step s (.sync r')).1.content = s.content :=
+  ⟨eraseRemote_sync r r' _ _ _, rfl, rfl⟩
+
+example : (WQ.pop { syncs := [⟨8, [1], 0⟩, ⟨7, [1, 2], 0⟩], nextIsEvent := false }).1 = some (.syncEvent 8 1) ∧
+    IdxOk { syncs := [⟨8, [1], 0⟩, ⟨7, [1, 2], 0⟩], nextIsEvent := false } := by
+  constructor
+  · decide
+  · left; decide
 
 example : (WQ.pop { syncs := [⟨7, [], 0⟩], nextIsEvent := false }).1 = some (.synced 7) := by decide
 example : (WQ.pop { eq := { events := [.rem 1], emap := [(1, 0)] }, syncs := [⟨7, [], 1⟩], nextIsEvent := false }).1
